@@ -7,4 +7,9 @@ mkdir -p "$VERIF_DIR/build/bin" "$VERIF_DIR/evidence" "$VERIF_DIR/replays"
 ensure_rewriter
 # warm: build the scheduler harness once
 build_sched_harness "$VERIF_DIR/build/setup" schedmc
+# bind the shim to Go: litmus suite (outcome sets) and race litmus suite (race verdicts)
+build_litmus "$VERIF_DIR/build/setup"
+"$VERIF_DIR/build/setup/bin/litmusmc" | tail -1
+build_racelit "$VERIF_DIR/build/setup"
+run_racelit "$VERIF_DIR/build/setup" | tail -1
 echo "setup ok"
